@@ -90,7 +90,7 @@ def dmTable (G : Graph) : String :=
 /-- `$o->p<k>_<j>()`, body `parent::<name j>(1,2)` -/
 def ppTable (G : Graph) : String :=
   table (G.classes.map fun d => (idxs G).flatMap fun k => jIdx.map fun j =>
-    viaProbe G d (probe 0 k j) fun kc => showFound (parentCall G (Ctx.ofObject d) kc.name (nameAt j)) (fun r => r.1))
+    viaProbe G d (probe 0 k j) fun kc => showFound (parentCall G (Ctx.ofMethod d kc) kc.name (nameAt j)) (fun r => r.1))
 
 /-- `$o->f<k>_<j>()`, body `self::<static j>(1,2)` -/
 def sfTable (G : Graph) : String :=
